@@ -1,10 +1,8 @@
-SPECIFICATION Spec
+SPECIFICATION TSpec
 CONSTANTS
  MaxPlayers = 32
  MaxTypeBits = 10
  MaxCards = 512
  MaxDkgPlayers = 256
- Fams = {"state"}
- P <- PThorough
-INVARIANTS Theorems Emit
+POSTCONDITION Accepted
 CHECK_DEADLOCK FALSE
